@@ -329,3 +329,33 @@ ALIAS_THOROUGH = [
     alias_cfg("v", 0, "TR", "realloc", "uint32_t", std="c++20"),
     alias_cfg("s", 4, "NTR", "exact", "uint32_t", std="c++11"),
 ]
+
+
+def lim_cfg(*a, **k):
+    return OneVecCfg("lim", "vec_limits_main.hpp", *a, **k)
+
+
+LIMITS_QUICK = [
+    lim_cfg("f", 1, "NTR", "none", "uint8_t"),
+    lim_cfg("f", 2, "TR", "none", "uint8_t"),
+    lim_cfg("f", 3, "TC4", "none", "uint8_t"),
+    lim_cfg("f", 5, "NTR", "none", "uint8_t"),
+    lim_cfg("f", 255, "TR", "none", "uint8_t"),
+    lim_cfg("v", 0, "NTR", "basic", "uint8_t"),
+    lim_cfg("v", 0, "TR", "realloc", "int8_t"),
+    lim_cfg("s", 2, "TC4", "amc", "uint8_t"),
+    lim_cfg("s", 32, "NTR", "exact", "int8_t"),
+    lim_cfg("s", 2, "TR", "basic", "uint8_t"),
+]
+LIMITS_THOROUGH = [
+    lim_cfg("f", 4, "TR", "none", "uint8_t"),
+    lim_cfg("f", 255, "NTR", "none", "uint8_t"),
+    lim_cfg("f", 256, "TC4", "none", "uint16_t"),
+    lim_cfg("v", 0, "TC4", "basic", "uint16_t"),
+    lim_cfg("s", 32, "TC1", "realloc", "uint8_t"),
+    lim_cfg("s", 4, "TC4", "amc", "int16_t"),
+    lim_cfg("v", 0, "TC12", "std", "uint8_t"),
+    lim_cfg("s", 2, "NTR", "basic", "uint8_t", compiler="clang++-14"),
+    lim_cfg("f", 3, "NTR", "none", "uint8_t", std="c++11"),
+    lim_cfg("v", 0, "NTR", "exact", "uint8_t", std="c++20"),
+]
